@@ -36,7 +36,7 @@ SIZES = [2, 3, 2, 2]
 
 def bounds(tier):
     return {'attributes': 3 if tier == 'quick' else '3 (all families) + 4 (all antichains, cliques <= 3)', 'sweeps': ['d', '2d', 60],
-            'history_depth': 2 if tier == 'quick' else 3, 'potential_classes': ['a', 'b', 'c'], 'totals': [1.0, 10.0]}
+            'history_depth': 2 if tier == 'quick' else 3, 'potential_classes': ['a', 'b', 'c', 'z (a whole attribute value structurally impossible)'], 'totals': [1.0, 10.0]}
 
 
 def families(k, antichains_only):
@@ -82,6 +82,13 @@ def potentials_for(dom, regions, generic_on, scale, rng):
         shp = dom.project(r).shape
         out[r] = Factor(dom.project(r), scale * rng.randn(*shp) if r in generic_on else np.zeros(shp))
     return CliqueVector(out)
+
+
+def zero_slice(pots, region):
+    """structural zero on a whole attribute value: the first value of the first attribute of `region` becomes impossible"""
+    f = pots[region]
+    if f.values.ndim >= 1 and f.values.shape[0] >= 2:
+        f.values[0, ...] = -np.inf
 
 
 def CliqueVectorCopy(dom, snap):
@@ -132,7 +139,7 @@ def run_family(acc, job, fam, present):
     is_antichain = len(maximal) == len(cliques)
     for minimal in ((True, False) if is_antichain else ()):
         for total in (1.0, 10.0):
-            for pclass in ('a', 'b', 'c'):
+            for pclass in ('a', 'b', 'c', 'z'):
                 rg0 = RegionGraph(dom, list(cliques), total=total, minimal=minimal, convex=False, iters=60)
                 regions = list(rg0.cliques)
                 d = max(1, len(regions))
@@ -142,6 +149,8 @@ def run_family(acc, job, fam, present):
                         rng = np.random.RandomState((seedbase + 7 * h + 13 * iters) % 2 ** 31)
                         gen = set(regions) if pclass == 'b' else {r for r in regions if r in maximal}
                         pots = potentials_for(dom, regions, gen, 50.0 if pclass == 'c' else 1.0, rng)
+                        if pclass == 'z':
+                            zero_slice(pots, [r for r in regions if r in maximal][0])
                         snap = {c: np.array(pots[c].values, copy=True) for c in regions}
                         mu = rg.belief_propagation(pots)
                         if h == depth:
@@ -206,13 +215,15 @@ def run_family(acc, job, fam, present):
             for kd, msg in fails:
                 acc.violate(dict(case, total_reassigned=True), {'kind': kd, 'oracle': case['oracle'], 'total_reassigned': True}, 'cliques %r: %s' % (cliques, msg))
     diam = 2 * (len(cliques) + k) + 2
-    for total, scale in ((1.0, 1.0), (10.0, 50.0)) if job['tier'] == 'quick' else ((1.0, 1.0), (10.0, 50.0), (1.0, 50.0), (10.0, 1.0)):
+    for total, scale in ((1.0, 1.0), (10.0, 50.0), (10.0, 'z')) if job['tier'] == 'quick' else ((1.0, 1.0), (10.0, 50.0), (1.0, 50.0), (10.0, 1.0), (10.0, 'z'), (1.0, 'z')):
         if True:
             for iters in (sorted({diam, 2 * diam}) if job['tier'] == 'quick' else sorted({diam, 2 * diam, 60})):
                 fg = FactorGraph(dom, list(cliques), total=total, convex=False, iters=iters)
                 for h in range(1, depth + 1):
                     rng = np.random.RandomState((seedbase + 11 * h + 17 * iters + 3) % 2 ** 31)
-                    pots = potentials_for(dom, cliques, set(cliques), scale, rng)
+                    pots = potentials_for(dom, cliques, set(cliques), 1.0 if scale == 'z' else scale, rng)
+                    if scale == 'z':
+                        zero_slice(pots, max(cliques, key=len))   # a whole attribute value is structurally impossible
                     snap = {c: np.array(pots[c].values, copy=True) for c in cliques}
                     seen_cb = []
                     mu = fg.belief_propagation(pots, callback=(lambda m: seen_cb.append(1)) if h == 2 else None)
